@@ -96,6 +96,10 @@ def run(world, sut, op):
     V.open = fs.open
     try:
         target = '/sim/report-%d.txt' % step if variant == 'report_path' else fs.file_object()
+        if variant == 'report_path' and op.get('stale'):
+            # a report path is reused: what an earlier validation wrote there must be gone afterwards
+            fs.preload(target, 'Error: stale line of an earlier report\n' * 40)
+            world.probe('c04_report_over_stale_file')
         form = op.get('form', 'errors')
         try:
             if form == 'errors':
